@@ -1,0 +1,52 @@
+//go:build verif
+
+// Contracts for gocv (see /verif/DESIGN.md). Comment-only file: takes no part in any build.
+
+package mavl
+
+// ---- C03: verifying a state proof never crashes and checks what it must ------------------------------
+// decoding never yields nil list members (repeated message fields are allocated by the decoder)
+//@ trusted func github.com/golang/protobuf/proto.Unmarshal
+//@   frame allocates, *m
+//@   ensures result == nil && istype(m, types.MAVLProof) ==> forall i :: 0 <= i && i < len(cast(m, types.MAVLProof).InnerNodes) ==> cast(m, types.MAVLProof).InnerNodes[i] != nil
+//@ trusted func (*github.com/33cn/chain33/types.InnerNode).Hash
+//@   frame nothing
+//@   opt functional=yes
+//@ trusted func (*github.com/33cn/chain33/types.LeafNode).Hash
+//@   frame nothing
+//@   opt functional=yes
+
+// the sibling hash goes to the side the branch leaves empty
+//@ func InnerNodeProofHash [C03]
+//@   requires branch != nil
+//@   frame allocates
+//@   assert@call Hash: arg0.Height == branch.Height && arg0.Size == branch.Size
+//@   assert@call Hash: len(branch.LeftHash) == 0 ==> arg0.LeftHash == childHash && arg0.RightHash == branch.RightHash
+//@   assert@call Hash: len(branch.LeftHash) != 0 ==> arg0.LeftHash == branch.LeftHash && arg0.RightHash == childHash
+//@   ensures result == ret(Hash)
+
+//@ func ReadProof [C03]
+//@   opt panics=allowed
+//@   frame allocates
+//@   ensures result1 == nil ==> result0 != nil && result0.LeafHash == leafhash && result0.RootHash == roothash
+//@   ensures result1 == nil ==> forall i :: 0 <= i && i < len(result0.InnerNodes) ==> result0.InnerNodes[i] != nil
+//@   ensures result1 != nil ==> result0 == nil
+
+// no crash for any proof whose members are non-nil; acceptance implies the declared root is the
+// requested root, the leaf hash is the hash of (key, value), and the recomputed root equals it
+//@ func (*Proof).Verify [C03]
+//@   requires proof != nil && sha256Len >= 0
+//@   requires forall i :: 0 <= i && i < len(proof.InnerNodes) ==> proof.InnerNodes[i] != nil
+//@   ensures result ==> bytes(old(proof.RootHash)) == bytes(root)
+//@   ensures result ==> called(Equal, 1) && ret(Equal, 1) && ret(Equal, 2)
+//@   assert@call LeafNode).Hash: bytes(arg0.Key) == bytes(key) && bytes(arg0.Value) == bytes(value) && arg0.Height == 0 && arg0.Size == 1
+//@   assert@call Equal#1: arg0 == ret(Hash)
+//@   assert@call InnerNodeProofHash: arg1 == proof.InnerNodes[rangeindex]
+//@   loop 0 invariant rangeindex >= -1 && proof.InnerNodes == old(proof.InnerNodes)
+//@   loop 0 invariant forall i :: 0 <= i && i < len(proof.InnerNodes) ==> proof.InnerNodes[i] != nil
+
+//@ func VerifyKVPairProof [C03]
+//@   opt panics=allowed
+//@   requires sha256Len >= 0
+//@   ensures result ==> called(Verify) && ret(Verify)
+//@   assert@call Verify: arg3 == roothash
